@@ -92,3 +92,11 @@ Proof.
   destruct (run WriteNoLock init [LSpawn (OpWrite 0); LStep 0]) as [s|] eqn:E; [|contradiction].
   exists s. split; [eapply run_reachable; exact E|exact H].
 Qed.
+
+Lemma close_race : exists s, reachable CloseNoLock s /\ panic s = Some PRace.
+Proof.
+  pose proof close_no_lock_race as H.
+  destruct (run CloseNoLock init [LSpawn OpClose; LStep 0]) as [s|] eqn:E; [|contradiction].
+  exists s. split; [eapply run_reachable; exact E|exact H].
+Qed.
+
